@@ -171,6 +171,9 @@ func (j *jsonBuilder) flattenObject(value *astjson.Value, path ast.Path) ([]*ast
 			return nil, err
 		}
 		result = append(result, values...)
+	case astjson.TypeNull:
+		// a nullable parent that resolved to null has no object to merge into
+		// (and contributed no context element to the resolver call)
 	default:
 		return nil, fmt.Errorf("expected array or object, got %s", current.Type())
 	}
